@@ -83,6 +83,14 @@ def specs_core():
         E("source", j=1)]})
     S.append({"name": "compr_g", "fluid": "gas", "nj": 3, "elems": [
         E("ext_grid", j=0), E("compressor", f=0, to=1), E("pipe", f=1, to=2), E("sink", j=2), E("source", j=1)]})
+    S.append({"name": "pc_standby", "fluid": "water", "nj": 4, "elems": [
+        E("ext_grid", j=0), E("pipe", f=0, to=1), E("press_control", f=1, to=2, cj=2, p=4.0),
+        E("press_control", f=1, to=2, cj=2, p=3.5, in_service=False, control_active=True), E("pipe", f=2, to=3), E("sink", j=3),
+        E("press_control", f=0, to=1, cj=0, p=2.5, in_service=False, control_active=True)]})
+    S.append({"name": "compr_g_high", "fluid": "gas", "nj": 3, "jh": [850, 850, 850], "elems": [
+        E("ext_grid", j=0), E("compressor", f=0, to=1), E("pipe", f=1, to=2), E("sink", j=2), E("source", j=1)]})
+    S.append({"name": "pump_w_high", "fluid": "water", "nj": 3, "jh": [400, 400, 420], "elems": [
+        E("ext_grid", j=0), E("pump", f=0, to=1, std_type="P3"), E("pipe", f=1, to=2), E("sink", j=2)]})
     S.append({"name": "pump_g", "fluid": "gas", "nj": 3, "elems": [
         E("ext_grid", j=0), E("pump", f=0, to=1), E("pipe", f=1, to=2), E("sink", j=2)]})
     S.append({"name": "fc_g", "fluid": "gas", "nj": 4, "jl": [4, 0, 9, 2], "jorder": [3, 1, 0, 2], "elems": [
